@@ -353,7 +353,8 @@ GAP_HELPERS = ("get_gap_array", "count_gaps_per_pos", "count_gaps_per_seq", "gap
 def _gap_vocabulary(fn):
     """what the function means by 'gap': the single gap character (`.gap`), the set including ambiguity-with-gap
     (`.gaps`), and gap-mask helpers called with their ambiguity-inclusive default"""
-    single = any(isinstance(x, ast.Attribute) and x.attr == "gap" for x in ast.walk(fn))
+    # the indel maps of an annotatable alignment record the gap character only ('-'), never '?'
+    single = any(isinstance(x, ast.Attribute) and x.attr in ("gap", "num_gaps", "gap_pos", "cum_gap_lengths") for x in ast.walk(fn))
     plural = any(isinstance(x, ast.Attribute) and x.attr == "gaps" for x in ast.walk(fn))
     helpers = set()
     for c in ast.walk(fn):
@@ -516,7 +517,38 @@ def r03_8(chk):
     chk.floor("R03.8", 3, "arithmetic uses of the slice stop in IndelMap.__getitem__[slice]")
 
 
+def r03_9(chk):
+    chk.rule("R03.9", "concatenating gap maps keeps the map canonical: IndelMap.__add__ merges a gap run that ends the left map with one that starts the right map (a test of the last left position against the first right position), so that wherever alignment code adds two maps (`a.map + b.map`) the result is the map of the concatenated gapped string -- two records with the same position make spans / joined_segments produce rows of unequal length")
+    lm = chk.repo.module("core/location.py")
+    ci = lm.cls("IndelMap")
+    add = ci.methods.get("__add__")
+    if not isinstance(add, ast.FunctionDef):
+        raise AnalysisError("IndelMap.__add__ not found")
+
+    def last_first(c):
+        txt = [norm(c.left)] + [norm(x) for x in c.comparators]
+        return isinstance(c.ops[0], ast.Eq) and any("[-1]" in t for t in txt) and any("[0]" in t for t in txt)
+
+    seam = any(isinstance(c, ast.Compare) and last_first(c) for c in ast.walk(add))
+    uses = []
+    for rel in (ALN, "core/new_alignment.py"):
+        m = chk.repo.module(rel)
+        for q, fn in m.all_functions():
+            for b in walk_no_nested(fn):
+                if isinstance(b, ast.BinOp) and isinstance(b.op, ast.Add) and all(isinstance(o, ast.Attribute) and o.attr == "map" for o in (b.left, b.right)):
+                    uses.append((m, q, b))
+    k = key(lm, "IndelMap.__add__", "seam run merged")
+    if seam:
+        chk.ok("R03.9", k, lm.loc(add), f"last/first position compared; {len(uses)} map additions in the alignment modules")
+    elif not uses:
+        chk.advisory("R03.9", k, lm.loc(add), "IndelMap.__add__ does not merge abutting gap runs; no alignment code adds two maps today (latent)")
+    for m, q, b in uses:
+        chk.decide(seam, "R03.9", key(m, q, f"`{norm(b)}` relies on a canonical sum"), m.loc(b), "IndelMap.__add__ merges the seam", f"`{norm(b)}` concatenates two gap maps with IndelMap.__add__, which keeps a gap that ends the left part and one that starts the right part as two records at one position: '----' + '--TAC' is rendered too long, and later column filtering raises 'not all sequences have same length'")
+    chk.floor("R03.9", 1, "IndelMap.__add__")
+
+
 def run(chk):
+    r03_9(chk)
     r03_7(chk)
     r03_8(chk)
     r03_1(chk)
